@@ -320,6 +320,16 @@ impl KeyKeeperSharedState {
         self.set_key(None).await
     }
 
+    /// Get the guid and the value of the current key with one message to the actor,
+    /// so that both always belong to the same key even while the key is being replaced or cleared.
+    pub async fn get_current_key_guid_and_value(&self) -> Result<(Option<String>, Option<String>)> {
+        match self.get_key().await {
+            Ok(Some(k)) => Ok((Some(k.guid), Some(k.key))),
+            Ok(None) => Ok((None, None)),
+            Err(e) => Err(e),
+        }
+    }
+
     pub async fn get_current_key_value(&self) -> Result<Option<String>> {
         match self.get_key().await {
             Ok(Some(k)) => Ok(Some(k.key)),
